@@ -192,8 +192,8 @@ def run(prog, tier, extra=None):
                     n += 1
                     res.instance(R3)
                     e = chf.rvalue(st[2], 0)
-                    if not (has_call(e, "generate_random_bytes") or any(x[0] == "yield" for x in walk(e)) and _random_feeds(fb, chf)):
-                        if not _random_feeds(fb, chf):
+                    if not (has_call(e, "generate_random_bytes") or _calls_random_helper(prog, e) or any(x[0] == "yield" for x in walk(e)) and _random_feeds(fb, chf, prog)):
+                        if not _random_feeds(fb, chf, prog):
                             res.add(Finding(R3, "C17.once|%s|not-random" % fn, "%s stores a challenge that does not come from generate_random_bytes: %s" % (fn, show(e)[:120]), fb.loc(bb)))
                             continue
                     # every value that can reach the store is fresh: none of the definitions it is assembled from reads the challenge
@@ -304,10 +304,34 @@ def _reads_old_challenge(fb, chf, e, seen):
     return None
 
 
-def _random_feeds(fb, chf):
-    """the issued challenge value is produced by awaiting generate_random_bytes in this body"""
+def _is_random_source(prog, path, depth=0):
+    """generate_random_bytes itself, or a workspace function (sync or async) that returns what it produces"""
+    if path.endswith("generate_random_bytes"):
+        return True
+    if depth > 2:
+        return False
+    for cand in (path, path + "::{closure#0}"):
+        b = prog.bodies.get(cand)
+        if b is None or b.is_promoted:
+            continue
+        for _, t in b.calls():
+            tgt = t.get("res") or t.get("callee") or ""
+            if tgt.endswith("generate_random_bytes") or (tgt in prog.bodies and tgt != path and b.nblocks < 60 and _is_random_source(prog, tgt, depth + 1)):
+                return True
+    return False
+
+
+def _calls_random_helper(prog, e):
+    return any(x[0] == "call" and _is_random_source(prog, x[1]) for x in walk(e))
+
+
+def _random_feeds(fb, chf, prog=None):
+    """the issued challenge value is produced by awaiting generate_random_bytes (or a small helper around it) in this body"""
     for bb, t in fb.calls():
         n = call_name(t) or ""
         if n.endswith("generate_random_bytes"):
+            return True
+        tgt = t.get("res") or t.get("callee") or ""
+        if prog is not None and tgt in prog.bodies and _is_random_source(prog, tgt):
             return True
     return False
